@@ -3,9 +3,510 @@ Soundness of the parser model with respect to the grammar of `Spec/Grammar.lean`
 -/
 import Mathy.Spec.Grammar
 namespace Mathy
+namespace PS
+
+/-- no end marker among the tokens -/
+def NoEof (ts : List Tok) : Prop := ∀ t ∈ ts, t.type ≠ .eof
+
+@[simp] theorem noEof_nil : NoEof [] := by simp [NoEof]
+@[simp] theorem noEof_cons (t : Tok) (ts : List Tok) :
+    NoEof (t :: ts) ↔ t.type ≠ .eof ∧ NoEof ts := by simp [NoEof]
+@[simp] theorem noEof_append (a b : List Tok) : NoEof (a ++ b) ↔ NoEof a ∧ NoEof b := by
+  simp only [NoEof, List.mem_append]
+  constructor
+  · intro h; exact ⟨fun t ht => h t (Or.inl ht), fun t ht => h t (Or.inr ht)⟩
+  · rintro ⟨h1, h2⟩ t (ht | ht)
+    · exact h1 t ht
+    · exact h2 t ht
+
+theorem eat_ok {ty : TT} {ts ts' : List Tok} (h : eat ty ts = .ok ts') :
+    ∃ t, ts = t :: ts' ∧ t.type = ty ∧ t.type ≠ .eof := by
+  unfold eat at h
+  split at h
+  · simp at h
+  · rename_i h1
+    cases ts with
+    | nil => simp [advance] at h
+    | cons t tl =>
+      simp only [advance] at h
+      split at h
+      · simp at h
+      · rename_i h2
+        simp [headType] at h1
+        injection h with h; subst h
+        exact ⟨t, rfl, h1, by simpa using h2⟩
+
+/-- `inp` splits into consumed tokens (none of them the end marker) satisfying `P`, and `rest` -/
+def Consumes (inp rest : List Tok) (P : List Tok → Prop) : Prop :=
+  ∃ ts, inp = ts ++ rest ∧ NoEof ts ∧ P ts
+
+theorem endsClosed_append (a : List Tok) {b : List Tok} (hb : b ≠ []) :
+    G.endsClosed (a ++ b) = G.endsClosed b := by
+  unfold G.endsClosed
+  rw [List.getLast?_append, List.getLast?_eq_some_getLast hb]
+  rfl
+
+theorem ne_nil_of_endsClosed {b : List Tok} (h : G.endsClosed b = true) : b ≠ [] := by
+  rintro rfl; simp [G.endsClosed] at h
+
+theorem endsClosed_append_of (a : List Tok) {b : List Tok} (h : G.endsClosed b = true) :
+    G.endsClosed (a ++ b) = true := by
+  rw [endsClosed_append a (ne_nil_of_endsClosed h), h]
+
+theorem endsClosed_cons_of (t : Tok) {b : List Tok} (h : G.endsClosed b = true) :
+    G.endsClosed (t :: b) = true := endsClosed_append_of [t] h
+
+theorem primSeq_ne_nil {ts : List Tok} {es : List Ex} (h : G.PrimSeq ts es) : es ≠ [] := by
+  cases h <;> simp
+
+/-- the simultaneous soundness statement at fuel `n` -/
+structure IH (n : Nat) : Prop where
+  add : ∀ inp e rest, parseAdd n inp = .ok (e, rest) →
+    Consumes inp rest (fun ts => G.AddE ts e)
+  addL : ∀ acc inp e rest, addLoop n acc inp = .ok (e, rest) →
+    Consumes inp rest (fun ts => G.AddLoop acc ts e)
+  mult : ∀ inp e rest, parseMult n inp = .ok (e, rest) →
+    Consumes inp rest (fun ts => G.MultE ts e ∧ isMultTok (headType rest) = false)
+  multL : ∀ acc inp e rest, multLoop n acc inp = .ok (e, rest) →
+    Consumes inp rest (fun ts => G.MultLoop acc ts e ∧ isMultTok (headType rest) = false)
+  exp : ∀ inp e rest, parseExponent n inp = .ok (e, rest) →
+    Consumes inp rest (fun ts => G.ExpE ts e)
+  unary : ∀ inp e rest, parseUnary n inp = .ok (e, rest) →
+    Consumes inp rest (fun ts => G.UnaryE ts e ∧
+      (headType rest = .exponent → G.endsClosed ts = true))
+  fl : ∀ acc inp rev rest, factorsLoop n acc inp = .ok (rev, rest) →
+    Consumes inp rest (fun ts => ∃ es, G.PrimSeq ts es ∧ rev = es.reverse ++ acc)
+  factors : ∀ inp e rest, parseFactors n inp = .ok (e, rest) →
+    Consumes inp rest (fun ts => G.Factors ts e ∧
+      (headType rest = .exponent → G.endsClosed ts = true))
+  fn : ∀ inp e rest, headType inp = .function → parseFunction n inp = .ok (e, rest) →
+    Consumes inp rest (fun ts => G.Prim ts e)
+
+theorem ih_zero : IH 0 := by
+  constructor <;> intros <;> simp_all [parseAdd, addLoop, parseMult, multLoop, parseExponent,
+    parseUnary, factorsLoop, parseFactors, parseFunction]
+
+section step
+variable {n : Nat} (ih : IH n)
+include ih
+
+theorem add_step (inp : List Tok) (e : Ex) (rest : List Tok)
+    (h : parseAdd (n + 1) inp = .ok (e, rest)) :
+    Consumes inp rest (fun ts => G.AddE ts e) := by
+  rw [parseAdd] at h
+  split at h
+  · simp at h
+  split at h
+  · simp at h
+  rename_i e0 mid h1
+  obtain ⟨ts, rfl, hn, hp, -⟩ := ih.mult _ _ _ h1
+  obtain ⟨ts', rfl, hn', hp'⟩ := ih.addL _ _ _ _ h
+  exact ⟨ts ++ ts', by simp, by simp [*], .mk hp hp'⟩
+
+theorem addL_step (acc : Ex) (inp : List Tok) (e : Ex) (rest : List Tok)
+    (h : addLoop (n + 1) acc inp = .ok (e, rest)) :
+    Consumes inp rest (fun ts => G.AddLoop acc ts e) := by
+  rw [addLoop] at h
+  split at h
+  · rename_i hop
+    split at h
+    · simp at h
+    rename_i mid heat
+    obtain ⟨t, rfl, ht, hte⟩ := eat_ok heat
+    split at h
+    rotate_left
+    · simp at h
+    split at h
+    · simp at h
+    rename_i r mid' h1
+    obtain ⟨ts, rfl, hn, hp, -⟩ := ih.mult _ _ _ h1
+    obtain ⟨ts', rfl, hn', hp'⟩ := ih.addL _ _ _ _ h
+    simp only [headType] at hop hp' ht
+    simp only [isAddTok, Bool.or_eq_true, beq_iff_eq] at hop
+    rcases hop with hop | hop
+    · refine ⟨t :: ts ++ ts', by simp, by simp [*], ?_⟩
+      simp only [hop] at hp'
+      exact .plus t hop hp hp'
+    · refine ⟨t :: ts ++ ts', by simp, by simp [*], ?_⟩
+      simp only [hop] at hp'
+      exact .minus t hop hp hp'
+  · injection h with h; injection h with h1 h2; subst h1; subst h2
+    exact ⟨[], by simp, by simp, .done _⟩
+
+theorem mult_step (inp : List Tok) (e : Ex) (rest : List Tok)
+    (h : parseMult (n + 1) inp = .ok (e, rest)) :
+    Consumes inp rest (fun ts => G.MultE ts e ∧ isMultTok (headType rest) = false) := by
+  rw [parseMult] at h
+  split at h
+  · simp at h
+  split at h
+  · simp at h
+  rename_i e0 mid h1
+  obtain ⟨ts, rfl, hn, hp⟩ := ih.exp _ _ _ h1
+  obtain ⟨ts', rfl, hn', hp', hm⟩ := ih.multL _ _ _ _ h
+  exact ⟨ts ++ ts', by simp, by simp [*], .mk hp hp', hm⟩
+
+theorem multL_step (acc : Ex) (inp : List Tok) (e : Ex) (rest : List Tok)
+    (h : multLoop (n + 1) acc inp = .ok (e, rest)) :
+    Consumes inp rest (fun ts => G.MultLoop acc ts e ∧ isMultTok (headType rest) = false) := by
+  rw [multLoop] at h
+  split at h
+  · rename_i hop
+    split at h
+    · simp at h
+    rename_i mid heat
+    obtain ⟨t, rfl, ht, hte⟩ := eat_ok heat
+    split at h
+    rotate_left
+    · simp at h
+    split at h
+    · simp at h
+    rename_i r mid' h1
+    simp only [headType] at hop ht h1 h
+    simp only [isMultTok, Bool.or_eq_true, beq_iff_eq] at hop
+    rcases hop with hop | hop
+    · simp only [hop] at h1 h
+      simp only [show (TT.multiply == TT.divide) = false from rfl] at h1
+      simp only [Bool.false_eq_true, if_false, beq_self_eq_true, if_true] at h1 h
+      obtain ⟨ts, rfl, hn, hp, hm⟩ := ih.mult _ _ _ h1
+      cases n with
+      | zero => simp [multLoop] at h
+      | succ m =>
+        rw [multLoop] at h
+        simp only [hm, Bool.false_eq_true, if_false] at h
+        injection h with h; injection h with h1 h2; subst h1; subst h2
+        exact ⟨t :: ts, by simp, by simp [*], .mul t hop hp, hm⟩
+    · simp only [hop] at h1 h
+      simp only [show (TT.divide == TT.multiply) = false from rfl] at h
+      simp only [Bool.false_eq_true, if_false, beq_self_eq_true, if_true] at h1 h
+      obtain ⟨ts, rfl, hn, hp⟩ := ih.exp _ _ _ h1
+      obtain ⟨ts', rfl, hn', hp', hm⟩ := ih.multL _ _ _ _ h
+      exact ⟨t :: ts ++ ts', by simp, by simp [*], .div t hop hp hp', hm⟩
+  · rename_i hop
+    injection h with h; injection h with h1 h2; subst h1; subst h2
+    exact ⟨[], by simp, by simp, .done _, by simpa using hop⟩
+
+theorem exp_step (inp : List Tok) (e : Ex) (rest : List Tok)
+    (h : parseExponent (n + 1) inp = .ok (e, rest)) :
+    Consumes inp rest (fun ts => G.ExpE ts e) := by
+  rw [parseExponent] at h
+  split at h
+  · simp at h
+  split at h
+  · simp at h
+  rename_i b mid h1
+  obtain ⟨ts, rfl, hn, hp, hc⟩ := ih.unary _ _ _ h1
+  split at h
+  · rename_i hx
+    simp only [isExpTok, beq_iff_eq] at hx
+    split at h
+    · simp at h
+    rename_i mid' heat
+    obtain ⟨t, rfl, ht, hte⟩ := eat_ok heat
+    split at h
+    · simp at h
+    split at h
+    · simp at h
+    rename_i u rest' h2
+    obtain ⟨us, rfl, hn', hp', -⟩ := ih.unary _ _ _ h2
+    injection h with h; injection h with h1 h2; subst h1; subst h2
+    exact ⟨ts ++ t :: us, by simp, by simp [*], .pow t ht hp (hc hx) hp'⟩
+  · injection h with h; injection h with h1 h2; subst h1; subst h2
+    exact ⟨ts, rfl, hn, .unary hp⟩
+
+theorem fn_step (inp : List Tok) (e : Ex) (rest : List Tok) (hf : headType inp = .function)
+    (h : parseFunction (n + 1) inp = .ok (e, rest)) :
+    Consumes inp rest (fun ts => G.Prim ts e) := by
+  rw [parseFunction] at h
+  split at h
+  · simp at h
+  rename_i m1 heat1
+  obtain ⟨f, rfl, hft, hfe⟩ := eat_ok heat1
+  split at h
+  · simp at h
+  rename_i m2 heat2
+  obtain ⟨o, rfl, hot, hoe⟩ := eat_ok heat2
+  split at h
+  · simp at h
+  rename_i a m3 h1
+  obtain ⟨ts, rfl, hn, hp⟩ := ih.add _ _ _ h1
+  split at h
+  · simp at h
+  rename_i m4 heat3
+  obtain ⟨c, rfl, hct, hce⟩ := eat_ok heat3
+  injection h with h; injection h with h1 h2; subst h1; subst h2
+  simp only [headType] at hf
+  exact ⟨f :: o :: ts ++ [c], by simp, by simp [*], .fn f o c hf hot hct hp⟩
+
+theorem fl_step (acc : List Ex) (inp : List Tok) (rev : List Ex) (rest : List Tok)
+    (h : factorsLoop (n + 1) acc inp = .ok (rev, rest)) :
+    Consumes inp rest (fun ts => ∃ es, G.PrimSeq ts es ∧ rev = es.reverse ++ acc) := by
+  rw [factorsLoop.eq_def] at h
+  simp only at h
+  split at h
+  · simp at h
+  rename_i f mid hstep
+  have hprim : Consumes inp mid (fun ts => G.Prim ts f) := by
+    split at hstep
+    · rename_i v tl
+      split at hstep
+      · simp at hstep
+      rename_i m heat
+      obtain ⟨t, heq, ht, hte⟩ := eat_ok heat
+      cases heq
+      injection hstep with hstep; injection hstep with h1 h2; subst h1; subst h2
+      exact ⟨[⟨.variable, v⟩], by simp, by simp, .var _ rfl⟩
+    · exact ih.fn _ _ _ rfl hstep
+    · split at hstep
+      · simp at hstep
+      rename_i m heat
+      obtain ⟨o, heq, hot, hoe⟩ := eat_ok heat
+      cases heq
+      split at hstep
+      · simp at hstep
+      rename_i a m3 h1
+      obtain ⟨ts, rfl, hn, hp⟩ := ih.add _ _ _ h1
+      split at hstep
+      · simp at hstep
+      rename_i m4 heat3
+      obtain ⟨c, rfl, hct, hce⟩ := eat_ok heat3
+      injection hstep with hstep; injection hstep with h1 h2; subst h1; subst h2
+      exact ⟨_ :: ts ++ [c], by simp, by simp [*], .paren _ c hot hct hp⟩
+    · simp at hstep
+  obtain ⟨ts, rfl, hn, hp⟩ := hprim
+  split at h
+  · obtain ⟨ts', rfl, hn', es, hps, hrev⟩ := ih.fl _ _ _ _ h
+    exact ⟨ts ++ ts', by simp, by simp [*], f :: es, .cons hp hps, by simp [hrev]⟩
+  · injection h with h; injection h with h1 h2; subst h1; subst h2
+    exact ⟨ts, rfl, hn, [f], .one hp, by simp⟩
+
+theorem factors_step (inp : List Tok) (e : Ex) (rest : List Tok)
+    (h : parseFactors (n + 1) inp = .ok (e, rest)) :
+    Consumes inp rest (fun ts => G.Factors ts e ∧
+      (headType rest = .exponent → G.endsClosed ts = true)) := by
+  rw [parseFactors] at h
+  split at h
+  · simp at h
+  rename_i rev mid hfl
+  obtain ⟨ts, rfl, hn, es, hps, hrev⟩ := ih.fl _ _ _ _ hfl
+  simp only [List.append_nil] at hrev
+  split at h
+  · simp at h
+  rename_i last before
+  have hes : es = before.reverse ++ [last] := by
+    have := congrArg List.reverse hrev
+    simpa using this.symm
+  subst hes
+  simp only at h
+  split at h
+  · simp at h
+  rename_i last' rest' hpow
+  split at h
+  · simp at h
+  rename_i f0 fs hrv
+  injection h with h; injection h with h1 h2; subst h1; subst h2
+  simp only [List.reverse_cons] at hrv
+  split at hpow
+  · rename_i hx
+    split at hpow
+    · simp at hpow
+    rename_i m heat
+    obtain ⟨x, rfl, hxt, hxe⟩ := eat_ok heat
+    split at hpow
+    · simp at hpow
+    split at hpow
+    · simp at hpow
+    rename_i u rest'' h2
+    obtain ⟨us, rfl, hn', hu, hc⟩ := ih.unary _ _ _ h2
+    injection hpow with hpow; injection hpow with h1 h2; subst h1; subst h2
+    exact ⟨ts ++ x :: us, by simp, by simp [*], .pow x hxt hps hu hrv,
+      fun hh => endsClosed_append_of _ (endsClosed_cons_of _ (hc hh))⟩
+  · rename_i hx
+    injection hpow with hpow; injection hpow with h1 h2; subst h1; subst h2
+    rw [hrv] at hps
+    refine ⟨ts, rfl, hn, .plain hps, fun hh => ?_⟩
+    simp [isExpTok, hh] at hx
+
+theorem unary_step (inp : List Tok) (e : Ex) (rest : List Tok)
+    (h : parseUnary (n + 1) inp = .ok (e, rest)) :
+    Consumes inp rest (fun ts => G.UnaryE ts e ∧
+      (headType rest = .exponent → G.endsClosed ts = true)) := by
+  rw [parseUnary] at h
+  split at h
+  · simp at h
+  rename_i ts1 hneg
+  split at h
+  · simp at h
+  simp only at h
+  split at h
+  · simp at h
+  rename_i c negate ts2 hwc
+  generalize (headType inp == TT.minus) = neg0 at hneg hwc
+  split at hwc
+  · -- a leading literal
+    rename_i v tl hffp
+    split at hwc
+    · simp at hwc
+    rename_i q hq
+    split at hwc
+    · simp at hwc
+    rename_i ts' heat
+    obtain ⟨c0, heq, hc0, hc0e⟩ := eat_ok heat
+    cases heq
+    injection hwc with hwc; injection hwc with a hwc; injection hwc with b d
+    subst a; subst b; subst d
+    have hlit : G.Lit ⟨.constant, v⟩ q := ⟨rfl, hq⟩
+    simp only [Bool.false_eq_true, if_false] at h
+    generalize hce : Ex.const 0 (if neg0 = true then -q else q) = ce at h
+    have hd : (tl = rest ∧ e = ce) ∨
+        (∃ b, tl = b :: rest ∧ b.type = .factorial ∧ b.type ≠ .eof ∧ e = .un 0 .fact ce) ∨
+        (∃ fs f, tl = fs ++ rest ∧ NoEof fs ∧ G.Factors fs f ∧
+          (headType rest = .exponent → G.endsClosed fs = true) ∧ e = .bin 0 .mul ce f) := by
+      split at h
+      · split at h
+        · split at h
+          · simp at h
+          rename_i m heat2
+          obtain ⟨b, rfl, hbt, hbe⟩ := eat_ok heat2
+          injection h with h; injection h with h1 h2; subst h1; subst h2
+          exact Or.inr (Or.inl ⟨b, rfl, hbt, hbe, rfl⟩)
+        · split at h
+          · simp at h
+          rename_i f m hf
+          obtain ⟨fs, rfl, hn, hp, hc⟩ := ih.factors _ _ _ hf
+          injection h with h; injection h with h1 h2; subst h1; subst h2
+          exact Or.inr (Or.inr ⟨fs, f, rfl, hn, hp, hc, rfl⟩)
+      · injection h with h; injection h with h1 h2; subst h1; subst h2
+        exact Or.inl ⟨rfl, rfl⟩
+    clear h
+    cases neg0
+    · simp only [Bool.false_eq_true, if_false] at hneg hce
+      injection hneg with hneg; subst hneg; subst hce
+      rcases hd with ⟨rfl, rfl⟩ | ⟨b, rfl, hbt, hbe, rfl⟩ | ⟨fs, f, rfl, hn, hp, hc, rfl⟩
+      · exact ⟨[_], rfl, by simp, .lit _ q hlit, fun _ => by simp [G.endsClosed]⟩
+      · exact ⟨[_, b], rfl, by simp [*], .fact _ b q hlit hbt,
+          fun _ => by simp [G.endsClosed, hbt]⟩
+      · exact ⟨_ :: fs, rfl, by simp [*], .litFactors _ q hlit hp,
+          fun hh => endsClosed_cons_of _ (hc hh)⟩
+    · simp only [if_true] at hneg hce
+      obtain ⟨m, rfl, hmt, hme⟩ := eat_ok hneg
+      subst hce
+      rcases hd with ⟨rfl, rfl⟩ | ⟨b, rfl, hbt, hbe, rfl⟩ | ⟨fs, f, rfl, hn, hp, hc, rfl⟩
+      · exact ⟨[m, _], rfl, by simp [*], .negLit m _ q hmt hlit, fun _ => by simp [G.endsClosed]⟩
+      · exact ⟨[m, _, b], rfl, by simp [*], .negFact m _ b q hmt hlit hbt,
+          fun _ => by simp [G.endsClosed, hbt]⟩
+      · exact ⟨m :: _ :: fs, rfl, by simp [*], .negLitFactors m _ q hmt hlit hp,
+          fun hh => endsClosed_cons_of _ (endsClosed_cons_of _ (hc hh))⟩
+  · -- no literal
+    injection hwc with hwc; injection hwc with a hwc; injection hwc with b d
+    subst a; subst b; subst d
+    simp only at h
+    split at h
+    rotate_left
+    · simp at h
+    split at h
+    · simp at h
+    rename_i f m hf
+    obtain ⟨fs, rfl, hn, hp, hc⟩ := ih.factors _ _ _ hf
+    injection h with h; injection h with h1 h2; subst h1; subst h2
+    cases neg0
+    · simp only [Bool.false_eq_true, if_false] at hneg ⊢
+      injection hneg with hneg; subst hneg
+      exact ⟨fs, rfl, hn, .factors hp, hc⟩
+    · simp only [if_true] at hneg ⊢
+      obtain ⟨m, rfl, hmt, hme⟩ := eat_ok hneg
+      exact ⟨m :: fs, rfl, by simp [*], .negFactors m hmt hp,
+        fun hh => endsClosed_cons_of _ (hc hh)⟩
+
+end step
+
+theorem ih_all : ∀ n, IH n
+  | 0 => ih_zero
+  | n + 1 =>
+    have ih := ih_all n
+    { add := add_step ih, addL := addL_step ih, mult := mult_step ih, multL := multL_step ih,
+      exp := exp_step ih, unary := unary_step ih, fl := fl_step ih, factors := factors_step ih,
+      fn := fn_step ih }
+
+theorem equalLoop_sound : ∀ (n : Nat) (acc : Ex) (inp : List Tok) (e : Ex) (rest : List Tok),
+    equalLoop n acc inp = .ok (e, rest) → Consumes inp rest (fun ts => G.EqLoop acc ts e)
+  | 0, _, _, _, _, h => by simp [equalLoop] at h
+  | n + 1, acc, inp, e, rest, h => by
+    rw [equalLoop] at h
+    split at h
+    · split at h
+      · simp at h
+      rename_i mid heat
+      obtain ⟨t, rfl, ht, hte⟩ := eat_ok heat
+      split at h
+      rotate_left
+      · simp at h
+      split at h
+      · simp at h
+      rename_i r mid' h1
+      obtain ⟨ts, rfl, hn, hp⟩ := (ih_all n).add _ _ _ h1
+      obtain ⟨ts', rfl, hn', hp'⟩ := equalLoop_sound n _ _ _ _ h
+      exact ⟨t :: ts ++ ts', by simp, by simp [*], .eq t ht hp hp'⟩
+    · injection h with h; injection h with h1 h2; subst h1; subst h2
+      exact ⟨[], by simp, by simp, .done _⟩
+
+theorem parseEqual_sound (n : Nat) (inp : List Tok) (e : Ex) (rest : List Tok)
+    (h : parseEqual n inp = .ok (e, rest)) : Consumes inp rest (fun ts => G.EqualE ts e) := by
+  cases n with
+  | zero => simp [parseEqual] at h
+  | succ n =>
+    rw [parseEqual] at h
+    split at h
+    · simp at h
+    split at h
+    · simp at h
+    rename_i e0 mid h1
+    obtain ⟨ts, rfl, hn, hp⟩ := (ih_all n).add _ _ _ h1
+    obtain ⟨ts', rfl, hn', hp'⟩ := equalLoop_sound n _ _ _ _ h
+    exact ⟨ts ++ ts', by simp, by simp [*], .mk hp hp'⟩
+
+/-- the consumed tokens of a complete parse are exactly the body -/
+theorem body_eq_of_split {x : Tok} (hx : x.type = .eof) :
+    ∀ (body ts rest : List Tok), NoEof body → NoEof ts → headType rest = .eof →
+      body ++ [x] = ts ++ rest → ts = body
+  | [], ts, rest, _, hts, _, h => by
+    cases ts with
+    | nil => rfl
+    | cons t ts' =>
+      simp only [List.nil_append, List.cons_append, List.cons.injEq] at h
+      obtain ⟨rfl, -⟩ := h
+      exact absurd hx (hts _ (List.mem_cons_self ..))
+  | y :: body', ts, rest, hb, hts, hr, h => by
+    cases ts with
+    | nil =>
+      simp only [List.nil_append] at h
+      subst h
+      simp only [List.cons_append, headType] at hr
+      exact absurd hr (hb _ (List.mem_cons_self ..))
+    | cons t ts' =>
+      simp only [List.cons_append, List.cons.injEq] at h
+      obtain ⟨rfl, h⟩ := h
+      simp only [noEof_cons] at hb hts
+      rw [body_eq_of_split hx body' ts' rest hb.2 hts.2 hr h]
+
+end PS
 
 theorem parseToks_sound (body : List Tok) (e : Ex) (hb : ∀ t ∈ body, t.type ≠ .eof)
     (h : parseToks (body ++ [eofTok]) = .ok e) : G.EqualE body e := by
-  sorry
+  unfold parseToks at h
+  split at h
+  · simp at h
+  split at h
+  · simp at h
+  rename_i e' rest hp
+  split at h
+  rotate_left
+  · simp at h
+  rename_i hr
+  injection h with h; subst h
+  obtain ⟨ts, hsplit, hn, hE⟩ := PS.parseEqual_sound _ _ _ _ hp
+  have := PS.body_eq_of_split (x := eofTok) rfl body ts rest hb hn (by simpa using hr) hsplit
+  subst this
+  exact hE
 
 end Mathy
